@@ -100,8 +100,8 @@ def is_unextendible_product_basis(vecs: list[np.ndarray], dims: list[int]) -> tu
             for i in range(num_parties):
                 # For the i-th party, acquire the matrix.
                 mat = np.stack([vecs_split[col][i] for col in part_ordered[i]])
-                # Find the basis of the null space.
-                null_basis = null_space(mat)
+                # Find the basis of the null space (of the conjugate: the witness is orthogonal in the inner product).
+                null_basis = null_space(mat.conj())
                 # If null space is empty then break.
                 if null_basis.shape[1] == 0:
                     witness_found = False
